@@ -79,7 +79,7 @@ class Universe:
     def __init__(self, ctx: Ctx, annotations: list[str] | None = None):
         fixed_model = fixture.ATOMS + fixture.model_depth1() + fixture.model_depth2()
         if annotations is None:
-            rnd = random_annotations(ctx, ctx.pick(24, 140), ctx.pick(3, 4))
+            rnd = random_annotations(ctx, ctx.pick(24, 260), ctx.pick(3, 4))
             annotations = list(dict.fromkeys(fixed_model + rnd + fixture.EXTRA))
         self.annotations = annotations
         self.w = real.World(annotations, fixture.EXTRA_FUNCS)
@@ -157,36 +157,77 @@ def meet_cell(a, b) -> str:
     return callable_cell(a, b) or f"{kind(a)}×{kind(b)}"
 
 
+def bound_observed(a, b, op: str) -> dict:
+    """`observed` of a failing bound law on its core instance."""
+    if op == "meet":
+        return {"class": "meet-not-lower-bound", "cell": meet_cell(a, b)}
+    return {"class": "join-not-upper-bound", "cell": callable_cell(a, b) or f"{kind(a)}×{kind(b)}"}
+
+
 def union_items(t):
     from mypy.types import UnionType, get_proper_type
     p = get_proper_type(t)
     return list(p.items) if isinstance(p, UnionType) else None
 
 
+def bound_fails(ops, x, y, op: str) -> bool:
+    ops.reset()
+    if op == "meet":
+        m = ops.meet_types(x, y)
+        return not (ops.is_subtype(m, x) and ops.is_subtype(m, y))
+    j = ops.join_types(x, y)
+    return not (ops.is_subtype(x, j) and ops.is_subtype(y, j))
+
+
+def components(a, b):
+    """Corresponding component pairs of two types of the same shape, with the operation the visitors apply to
+    them relative to the outer one ('same' / 'dual' / 'either')."""
+    from mypy.types import CallableType, Instance, TupleType, TypeType, UnpackType, get_proper_type
+    pa, pb = get_proper_type(a), get_proper_type(b)
+    out = []
+    if isinstance(pa, Instance) and isinstance(pb, Instance) and pa.type is pb.type and len(pa.args) == len(pb.args):
+        out += [(x, y, "either") for x, y in zip(pa.args, pb.args)]
+    elif (isinstance(pa, TupleType) and isinstance(pb, TupleType) and len(pa.items) == len(pb.items)
+          and not any(isinstance(i, UnpackType) for i in pa.items + pb.items)):
+        out += [(x, y, "same") for x, y in zip(pa.items, pb.items)]
+    elif isinstance(pa, CallableType) and isinstance(pb, CallableType) and len(pa.arg_types) == len(pb.arg_types):
+        out += [(x, y, "either") for x, y in zip(pa.arg_types, pb.arg_types)]
+        out.append((pa.ret_type, pb.ret_type, "same"))
+    elif isinstance(pa, TypeType) and isinstance(pb, TypeType):
+        out.append((pa.item, pb.item, "same"))
+    else:
+        # fixed tuple against tuple[X, ...] / Sequence[X] / Iterable[X]: every item against X
+        from mypy.types import TUPLE_LIKE_INSTANCE_NAMES
+        for p, q in ((pa, pb), (pb, pa)):
+            if (isinstance(p, TupleType) and not any(isinstance(i, UnpackType) for i in p.items)
+                    and isinstance(q, Instance) and q.type.fullname in TUPLE_LIKE_INSTANCE_NAMES and len(q.args) == 1):
+                out += [(x, q.args[0], "same") for x in p.items]
+    return out
+
+
 def bound_core(ops, a, b, op: str, depth: int = 0):
-    """Reduce a failing join/meet law instance on unions to a failing instance on items, if there is one: the
-    reported cell then names the mechanism instead of `union×…`."""
-    def fails(x, y) -> bool:
-        ops.reset()
-        if op == "meet":
-            m = ops.meet_types(x, y)
-            return not (ops.is_subtype(m, x) and ops.is_subtype(m, y))
-        j = ops.join_types(x, y)
-        return not (ops.is_subtype(x, j) and ops.is_subtype(y, j))
-    if depth < 4:
-        ia, ib = union_items(a), union_items(b)
+    """Reduce a failing join/meet law instance to a smallest failing instance inside it (items of unions, then
+    corresponding components of equally shaped types): the reported cell then names the mechanism instead of
+    the wrapper.  Returns (a', b', op')."""
+    if depth < 6:
         # (the visitors call themselves with the union item first, so both orders are tried)
-        for x in (ia or []):
-            if fails(x, b):
+        for x in (union_items(a) or []):
+            if bound_fails(ops, x, b, op):
                 return bound_core(ops, x, b, op, depth + 1)
-            if fails(b, x):
+            if bound_fails(ops, b, x, op):
                 return bound_core(ops, b, x, op, depth + 1)
-        for y in (ib or []):
-            if fails(a, y):
+        for y in (union_items(b) or []):
+            if bound_fails(ops, a, y, op):
                 return bound_core(ops, a, y, op, depth + 1)
-            if fails(y, a):
+            if bound_fails(ops, y, a, op):
                 return bound_core(ops, y, a, op, depth + 1)
-    return a, b
+        dual = "meet" if op == "join" else "join"
+        for x, y, how in components(a, b):
+            for o in ([op] if how == "same" else [op, dual]):
+                for (u, v) in ((x, y), (y, x)):
+                    if bound_fails(ops, u, v, o):
+                        return bound_core(ops, u, v, o, depth + 1)
+    return a, b, op
 
 
 def trans_core(ops, a, b, c, depth: int = 0):
@@ -295,7 +336,7 @@ def correspondence(ctx: Ctx, u: Universe, ops: real.Ops, cold) -> list[dict]:
     hier = u.w.classes.export()
     lines = list(hier) + ["Q hok"]
     M = u.model_idx
-    lines += [f"Q wf {u.term[i]}" for i in M]
+    lines += [f"Q hyp {u.term[i]}" for i in M]
     queries: list[tuple[str, tuple[int, ...]]] = []
     for i in M:
         for j in M:
@@ -322,8 +363,10 @@ def correspondence(ctx: Ctx, u: Universe, ops: real.Ops, cold) -> list[dict]:
                       "(the hypotheses of the theorems)", "table": hier})
     wf = out[len(hier) + 1: len(hier) + 1 + len(M)]
     for i, o in zip(M, wf):
-        if o != "1":
+        if o[:1] != "1":
             diffs.append({"kind": "wf", "what": f"term of {u.names[i]} is not well-formed for the model", "term": u.term[i]})
+        # which hypotheses of the join/meet/transitivity theorems the term satisfies (wf, noFunc, latOk)
+        ctx.dist("model_terms_wf_noFunc_latOk", o)
     res = out[len(hier) + 1 + len(M):]
     skipped = 0
     for (op, idx), m in zip(queries, res):
@@ -404,15 +447,15 @@ def law_search(ctx: Ctx, u: Universe, ops: real.Ops, cold) -> int:
             J = cold[("join", i, j)]
             ja, jb = S(a, J), S(b, J)
             if not (ja and jb):
-                ca, cb = bound_core(ops, a, b, "join")
-                report({"class": "join-not-upper-bound", "cell": callable_cell(ca, cb) or f"{kind(ca)}×{kind(cb)}"},
+                ca, cb, cop = bound_core(ops, a, b, "join")
+                report(bound_observed(ca, cb, cop),
                        f"join_types({N[i]}, {N[j]}) = {J} is not a supertype of its {'first' if not ja else 'second'} operand",
                        {"law": "join_upper", "operands": [N[i], N[j]], "join": str(J), "first_ok": ja, "second_ok": jb})
             Mt = cold[("meet", i, j)]
             ma, mb = S(Mt, a), S(Mt, b)
             if not (ma and mb):
-                ca, cb = bound_core(ops, a, b, "meet")
-                report({"class": "meet-not-lower-bound", "cell": meet_cell(ca, cb)},
+                ca, cb, cop = bound_core(ops, a, b, "meet")
+                report(bound_observed(ca, cb, cop),
                        f"meet_types({N[i]}, {N[j]}) = {Mt} is not a subtype of its {'first' if not ma else 'second'} operand",
                        {"law": "meet_lower", "operands": [N[i], N[j]], "meet": str(Mt), "first_ok": ma, "second_ok": mb})
             Sm = cold[("simp", i, j)]
